@@ -103,6 +103,24 @@ pub fn run(tier: &str) -> Result<Report, String> {
         parts.push(json!({"part": "deep nests", "network": name, "max_depth": max, "formulae": fs.len()}));
         sem::sweep(&mut rep, &ctx, &fs, ck);
     }
+    // 1d. sets whose BDD is large as data (child process)
+    {
+        let j = json!({"kind": "c01big", "model": "synthetic:pairs16"});
+        match crate::jobs::run(&j, if quick { 60.0 } else { 600.0 }) {
+            crate::jobs::JobResult::Done(v) => {
+                if let Some(e) = v.get("error") {
+                    return Err(format!("large-BDD job: {e}"));
+                }
+                rep.evaluations += v["cases"].as_u64().unwrap_or(0);
+                for p in v["problems"].as_array().cloned().unwrap_or_default() {
+                    rep.violations.push(crate::report::Violation { case: json!({"kind": "c01big", "model": "synthetic:pairs16", "only": p["case"]}), what: format!("on synthetic:pairs16 (32 frozen variables, p = AND_i (a_i <=> b_i), {} BDD nodes): {}", v["bdd_nodes_of_p"], p["what"].as_str().unwrap_or("")), size: 70 });
+                }
+                parts.push(json!({"part": "large BDD sets", "model": "synthetic:pairs16", "bdd_nodes_of_p": v["bdd_nodes_of_p"], "closed_form_cases": v["cases"], "wall_s": v["wall_s"]}));
+            }
+            crate::jobs::JobResult::Timeout => rep.cap("large-BDD job exceeded its wall limit and was stopped (no verdict)".to_string()),
+            crate::jobs::JobResult::Crashed(e) => return Err(format!("large-BDD job crashed: {e}")),
+        }
+    }
     // 1b. the multi-formula entry points: every ordered pair of the plain pool as a batch, each
     //     position compared with the oracle (the batch variants are entry points as well)
     {
@@ -193,6 +211,82 @@ pub fn run(tier: &str) -> Result<Report, String> {
     }
     parts.push(json!({"part": "operator slices", "nodes_exactly": m_slice, "slices": if quick { sl.len().div_ceil(7) } else { sl.len() }, "slice_names": sl.iter().map(|s| s.0.clone()).collect::<Vec<_>>(), "formulae": slice_total, "networks": slice_nets}));
     rep.set("parts", json!(parts));
-    rep.rule = "(1) all closed formulae with at most max_nodes nodes over the plain operator set, all closed formulae with at most max_nodes-1 nodes over all nine binary operators that use EW or AW, and the template families (benchmark formulae, two/three-variable quantifier nests with jumps, duplicated sub-formulae with swapped variable roles, one-free-variable sub-formulae with inner quantifiers duplicated at equal and different quantifier depths in both orders) on every core network through model_check_formula, _dirty, model_check_tree, _tree_dirty; (1a) all closed formulae with <= 3 (4) nodes over all operators + templates on four networks whose variable names are unusual as data (Ca_extra_cell / b_extra_1, x / xx, a / ab, EF1 / TRUE); (1c) deterministic deep quantifier nests (4..10 quantifiers on one branch on 1-variable networks, up to 6 on con2; graphs with as many spare variable sets); (1b) every ordered pair of a pool of closed formulae as a two-element batch through model_check_multiple_formulae(_dirty), each position against the oracle; (2) all closed formulae with <= 3 (every 25th network: 4) nodes on every network of the de-duplicated family of ALL 2-variable networks of the grammar; (3) all closed formulae with exactly m nodes in every operator slice (each pair of operator groups x each quantifier, jump included). Every result is compared on every state x valid colour with the explicit-state oracle; distinct_nontrivial = number of distinct (network, verdict table) pairs that are neither empty nor full".into();
+    rep.rule = "(1) all closed formulae with at most max_nodes nodes over the plain operator set, all closed formulae with at most max_nodes-1 nodes over all nine binary operators that use EW or AW, and the template families (benchmark formulae, two/three-variable quantifier nests with jumps, duplicated sub-formulae with swapped variable roles, one-free-variable sub-formulae with inner quantifiers duplicated at equal and different quantifier depths in both orders) on every core network through model_check_formula, _dirty, model_check_tree, _tree_dirty; (1a) all closed formulae with <= 3 (4) nodes over all operators + templates on four networks whose variable names are unusual as data (Ca_extra_cell / b_extra_1, x / xx, a / ab, EF1 / TRUE); (1c) deterministic deep quantifier nests (4..10 quantifiers on one branch on 1-variable networks, up to 6 on con2; graphs with as many spare variable sets); (1d) 13 hybrid formulae with closed forms on a frozen 32-variable network whose argument set has a BDD of ~2^17 nodes (large as data); (1b) every ordered pair of a pool of closed formulae as a two-element batch through model_check_multiple_formulae(_dirty), each position against the oracle; (2) all closed formulae with <= 3 (every 25th network: 4) nodes on every network of the de-duplicated family of ALL 2-variable networks of the grammar; (3) all closed formulae with exactly m nodes in every operator slice (each pair of operator groups x each quantifier, jump included). Every result is compared on every state x valid colour with the explicit-state oracle; distinct_nontrivial = number of distinct (network, verdict table) pairs that are neither empty nor full".into();
     Ok(rep)
+}
+
+/// Child job: hybrid operators on sets whose BDD is LARGE as data (about 2^17 nodes) on a frozen network,
+/// where every operator has a closed form: every state is steady, so EX f = AX f = EF f = f.
+pub fn job(job: &serde_json::Value) -> serde_json::Value {
+    use biodivine_hctl_model_checker::model_checking as mc;
+    use biodivine_lib_param_bn::symbolic_async_graph::GraphColoredVertices;
+    use std::collections::HashMap;
+    let t0 = std::time::Instant::now();
+    let name = job["model"].as_str().unwrap_or("synthetic:pairs16");
+    let only = job["only"].as_str();
+    let big = match crate::bigmodels::load(name, 2) {
+        Ok(b) => b,
+        Err(e) => return json!({"error": e}),
+    };
+    let g = &big.graph;
+    let sc = g.symbolic_context();
+    let vars: Vec<_> = g.variables().collect();
+    let half = vars.len() / 2;
+    // p = AND_i (a_i <=> b_i), built with BDD operations only
+    let mut bdd = sc.mk_constant(true);
+    for i in 0..half {
+        let (a, b) = (sc.mk_state_variable_is_true(vars[i]), sc.mk_state_variable_is_true(vars[half + i]));
+        bdd = bdd.and(&a.iff(&b));
+    }
+    let p = GraphColoredVertices::new(bdd, sc);
+    let nodes = p.as_bdd().size();
+    let unit = g.mk_unit_colored_vertices();
+    let empty = g.mk_empty_colored_vertices();
+    let ctx: HashMap<String, GraphColoredVertices> = HashMap::from([("p".to_string(), p.clone())]);
+    let names = big.var_names();
+    let phi_text = (0..half).map(|i| format!("({} <=> {})", names[i], names[half + i])).collect::<Vec<_>>().join(" & ");
+    let cases: Vec<(String, &GraphColoredVertices)> = vec![
+        ("3{x}: @{x}: %p%".into(), &unit),
+        ("V{x}: @{x}: %p%".into(), &empty),
+        ("!{x}: %p%".into(), &p),
+        ("!{x}: @{x}: %p%".into(), &p),
+        ("3{x}: ({x} & %p%)".into(), &p),
+        ("3{x}: ((@{x}: %p%) & {x})".into(), &p),
+        ("V{x}: ((@{x}: %p%) | ~{x})".into(), &p),
+        ("!{x}: 3{y}: (@{y}: (%p% & {x}))".into(), &p),
+        ("!{x}: EX ({x} & %p%)".into(), &p),
+        ("!{x}: AX ({x} & %p%)".into(), &p),
+        ("3{x}: @{x}: (%p% & EF {x})".into(), &unit),
+        (format!("3{{x}}: @{{x}}: ({phi_text})"), &unit),
+        (format!("!{{x}}: @{{x}}: ({phi_text})"), &p),
+    ];
+    let mut problems = vec![];
+    let mut n = 0u64;
+    for (text, want) in &cases {
+        if let Some(o) = only {
+            if o != text {
+                continue;
+            }
+        }
+        n += 1;
+        let got = crate::report::guarded(std::panic::AssertUnwindSafe(|| mc::model_check_extended_formula_dirty(text, g, &ctx)));
+        let what = match got {
+            Ok(Ok(s)) if s.as_bdd() == want.as_bdd() => None,
+            Ok(Ok(s)) => Some(format!("`{}` has {} states, the closed form on a frozen network has {}", crate::report::truncate(text, 90), s.vertices().exact_cardinality(), want.vertices().exact_cardinality())),
+            Ok(Err(e)) => Some(format!("`{}` returns Err: {e}", crate::report::truncate(text, 90))),
+            Err(pn) => Some(format!("`{}` panics: {pn}", crate::report::truncate(text, 90))),
+        };
+        if let Some(w) = what {
+            problems.push(json!({"case": text, "what": w}));
+        }
+    }
+    json!({"cases": n, "problems": problems, "variables": g.num_vars(), "bdd_nodes_of_p": nodes, "wall_s": t0.elapsed().as_secs_f64()})
+}
+
+pub fn replay_big(case: &serde_json::Value) -> Option<String> {
+    let v = job(&json!({"kind": "c01big", "model": case["model"], "only": case["only"]}));
+    if let Some(e) = v.get("error") {
+        return Some(format!("job error: {e}"));
+    }
+    v["problems"].as_array().and_then(|a| a.first()).map(|p| p["what"].as_str().unwrap_or("").to_string())
 }
